@@ -131,6 +131,30 @@ func runC03(c *vk.Ctx) {
 			est2Err = estErr
 		}
 		c.Eval(2)
+		if exactIn && w.r.Intn(3) == 0 {
+			// the price-impact estimate (a search that asks the pool for many quotes in a row): what it reports as
+			// output for the input it settles on must be what a plain quote of that input returns on the same state
+			var pi *pmquery.EstimateTradeBasedOnPriceImpactResponse
+			var piErr error
+			imp := sdkmath.LegacyNewDecWithPrec(1+w.r.I64n(60), 2)
+			recP, _ := vk.Guard(func() {
+				pi, piErr = q.EstimateTradeBasedOnPriceImpact(ctx, pmquery.EstimateTradeBasedOnPriceImpactRequest{FromCoin: sdk.NewCoin(din, amount), ToCoinDenom: dout, PoolId: w.poolID, MaxPriceImpact: imp, ExternalPrice: sdkmath.LegacyZeroDec()})
+			})
+			if recP == nil && piErr == nil && pi != nil && pi.InputCoin.Amount.IsPositive() {
+				var plain sdk.Coin
+				var plainErr error
+				recQ, _ := vk.Guard(func() {
+					p, _ := w.ch.App.ConcentratedLiquidityKeeper.GetPool(ctx, w.poolID)
+					plain, plainErr = w.ch.App.ConcentratedLiquidityKeeper.CalcOutAmtGivenIn(ctx, p, pi.InputCoin, dout, w.spread)
+				})
+				c.Eval(1)
+				if recQ == nil && plainErr == nil && !plain.Amount.Equal(pi.OutputCoin.Amount) {
+					c.Violate("C03.estimate_vs_execution", map[string]any{"zero_for_one": zfo, "exact_in": true, "price_impact_estimate": true}, "EstimateTradeBasedOnPriceImpact(%s%s -> %s, max impact %s) settles on input %s and reports output %s, a plain quote of that input on the same state gives %s", amount, din, dout, imp, pi.InputCoin, pi.OutputCoin, plain)
+					return nil
+				}
+				c.Class("price-impact-estimate|zfo%v|agrees", zfo)
+			}
+		}
 		if w.ch.Digest(ctx, "concentratedliquidity", "bank", "poolmanager") != before {
 			c.Violate("C03.estimate_changed_state", sig, "the estimate queries for %s (zfo=%v exactIn=%v) changed the concentrated-liquidity / bank / pool-manager stores", amount, zfo, exactIn)
 			return nil
